@@ -2,7 +2,7 @@ use std::{collections::HashMap, fmt::Debug};
 
 use common_lang_types::{SelectableName, WithEmbeddedLocation};
 use isograph_lang_types::{
-    ArgumentKeyAndValue, ConstantValue, NonConstantValue, ScalarSelectionDirectiveSet,
+    ArgumentKeyAndValue, NonConstantValue, ScalarSelectionDirectiveSet,
     SelectionFieldArgument, SelectionType, VariableDeclaration, VariableNameWrapper,
 };
 use prelude::Postfix;
@@ -63,20 +63,21 @@ impl VariableContext {
                     }
                 };
 
-                let child_value =
-                    // TODO avoid cloning
-                    match ConstantValue::try_from(matching_arg.item.clone().value.item) {
-                        Ok(_) => matching_arg.item.value.item.clone(),
-                        Err(e) => self
-                            .0
-                            .get(&e)
+                // Every variable in the argument (also one inside an object or a list) is
+                // replaced by the parent context's value for it; the rest of the argument
+                // is kept.
+                let child_value = matching_arg.item.value.item.clone().substitute_variables(
+                    &|used_variable_name| {
+                        self.0
+                            .get(&used_variable_name)
                             .expect(
                                 "Parent context has missing variable. \
                                 This should have been validated already. \
                                 This is indicative of a bug in Isograph.",
                             )
-                            .clone(),
-                    };
+                            .clone()
+                    },
+                );
 
                 (variable_name, child_value)
             })
@@ -144,29 +145,21 @@ fn transform_selection_field_argument_into_merged_arg_with_child_context(
     arg: ArgumentKeyAndValue,
     variable_context: &VariableContext,
 ) -> ArgumentKeyAndValue {
-    if let NonConstantValue::Variable(used_variable_name) = arg.value {
-        // Look up the variable in the variables in context, and use that value
-        //
-        // This will give us the *actual value* that we need for the merged selection set.
-        let value = variable_context.0.get(&used_variable_name);
-
-        return match value {
-            Some(value) => ArgumentKeyAndValue {
-                key: arg.key,
-                value: value.clone(),
-            },
-            None => {
+    // Look up every variable that the argument uses (at any depth, i.e. also inside
+    // objects and lists) in the variables in context, and use that value.
+    //
+    // This will give us the *actual value* that we need for the merged selection set.
+    ArgumentKeyAndValue {
+        key: arg.key,
+        value: arg.value.substitute_variables(&|used_variable_name| {
+            match variable_context.0.get(&used_variable_name) {
+                Some(value) => value.clone(),
                 // There is no variable. The value is missing! It had better be optional.
                 // TODO we should validate that
-                ArgumentKeyAndValue {
-                    key: arg.key,
-                    value: NonConstantValue::Null,
-                }
+                None => NonConstantValue::Null,
             }
-        };
+        }),
     }
-
-    arg
 }
 
 pub fn transform_arguments_with_child_context(
